@@ -131,7 +131,7 @@ def run_boot(route, files, outdir, base, kconfig, soc, wd):
         if route == "cli":
             rc, exc = drive.cli_inproc(argv)
             return None if rc == 0 else (exc or RuntimeError(f"cli exit {rc}"))
-        rc, err = drive.cli_sub(argv, wd)
+        rc, err = drive.cli_sub(argv, wd, ascii_locale=False)
         return None if rc == 0 else RuntimeError(f"cli exit {rc}: {err[-300:]}")
     except BaseException as e:  # noqa  (BuildConfiguration raises SystemExit for a missing file)
         if isinstance(e, KeyboardInterrupt):
